@@ -532,3 +532,40 @@ func strContains(h, n Str) (Bool, bool) {
 	}
 	return mkBool(res), false
 }
+
+type PoolObj struct{ items []Value }
+
+func init() {
+	pool := func(g *G, v Value) (*PoolObj, Struct) {
+		p := v.(*Value)
+		po := g.run.pools[p]
+		if po == nil {
+			po = &PoolObj{}
+			g.run.pools[p] = po
+		}
+		return po, (*p).(Struct)
+	}
+	reg("(*sync.Pool).Get", func(g *G, fr *Frame, fn *ssa.Function, a []Value) Value {
+		g.model("sync.Pool is a LIFO free list (no GC-driven eviction)")
+		po, s := pool(g, a[0])
+		g.schedPoint(&Op{desc: "pool.Get", obj: po, enabled: func() bool { return true }})
+		if n := len(po.items); n > 0 {
+			v := po.items[n-1]
+			po.items = po.items[:n-1]
+			return v
+		}
+		newFn, _ := fieldByName(g.run.P.NamedType("sync", "Pool"), s, "New").(*Closure)
+		if newFn == nil {
+			return Iface{}
+		}
+		return g.callFn(newFn, nil, g.top, token.NoPos)
+	})
+	reg("(*sync.Pool).Put", func(g *G, fr *Frame, fn *ssa.Function, a []Value) Value {
+		po, _ := pool(g, a[0])
+		g.schedPoint(&Op{desc: "pool.Put", obj: po, enabled: func() bool { return true }})
+		if x, _ := a[1].(Iface); x.T != nil {
+			po.items = append(po.items, a[1])
+		}
+		return nil
+	})
+}
